@@ -155,9 +155,15 @@ func (r *faultRelay) note(t int64, refused bool) {
 func (r *faultRelay) pump(p *relayPair, from, to net.Conn, up bool) {
 	buf := make([]byte, 32*1024)
 	for {
-		for r.freeze.Load() && p.ender.Load() == 0 {
+		if r.freeze.Load() {
+			// black hole: do not read at all (the peer's send buffer fills up, its close is not passed on)
+			if p.ender.Load() != 0 {
+				break
+			}
 			time.Sleep(20 * time.Millisecond)
+			continue
 		}
+		_ = from.SetReadDeadline(time.Now().Add(100 * time.Millisecond)) // so that a freeze also reaches idle connections
 		n, err := from.Read(buf)
 		if n > 0 {
 			if up {
@@ -165,17 +171,17 @@ func (r *faultRelay) pump(p *relayPair, from, to net.Conn, up bool) {
 			} else {
 				p.downBytes.Add(int64(n))
 			}
-		}
-		if r.freeze.Load() && err == nil {
-			// frozen while blocked in Read: the bytes are lost, like everything else in a black hole
-			continue
-		}
-		if n > 0 && !r.stall.Load() {
-			if _, werr := to.Write(buf[:n]); werr != nil {
-				break
+			if !r.stall.Load() {
+				_ = to.SetWriteDeadline(time.Now().Add(30 * time.Second))
+				if _, werr := to.Write(buf[:n]); werr != nil {
+					break
+				}
 			}
 		}
 		if err != nil {
+			if ne, ok := err.(net.Error); ok && ne.Timeout() {
+				continue
+			}
 			who := int32(2)
 			if up {
 				who = 1
@@ -352,7 +358,7 @@ func (s *statusProbe) allRunning() string {
 }
 
 // watchSockets is the relay's eye while it is frozen (it does not read, so it cannot see EOF): the kernel's
-// socket table tells whether the peer of each relayed connection has closed or reset it.
+// socket table tells whether frpc / frps (same host) still hold their end of each relayed connection.
 func (r *faultRelay) watchSockets(stop <-chan struct{}) {
 	for {
 		select {
@@ -371,7 +377,8 @@ func (r *faultRelay) watchSockets(stop <-chan struct{}) {
 				if !lok || !rok {
 					continue
 				}
-				if s, ok := st[[2]int{la.Port, ra.Port}]; !ok || s != 1 { // 1 = ESTABLISHED
+				// the peer's own socket is the reversed pair; anything but ESTABLISHED (1) means its owner closed it
+				if s, ok := st[[2]int{ra.Port, la.Port}]; !ok || s != 1 {
 					if i == 0 {
 						p.clientGone.CompareAndSwap(0, h.Now())
 					} else {
